@@ -13,9 +13,12 @@ def describe(kind, value_kind):
     if value_kind == 'json':
         # a JSON-serialisable value: a table function returning lists of ints/strings
         src['fields']['x']['table'] = [[[i], [1, 'v' + i, [2, 3]]] for i in ['a', 'b', 'c']]
-    labels = kind.endswith('+labels')
+    labels = '+labels' in kind
+    use = '+uselabels' in kind          # labels are passed to CacheToDisk.simple (the storage is the one `.simple` creates)
     kind = kind.split('+')[0]
     cache = {'k': kind, 'names': ['x'], 'root': 0, 'json_labels': labels}
+    if use:
+        cache['labels'] = ['cv-label']
     if kind == 'columns':
         cache['shard'] = 2
     return {'k': 'chain', 'flavour': 'chain', 'layers': [src, cache]}
